@@ -52,7 +52,7 @@ def plan(tier, seed):
     for est in coh.EST:
         jobs.append({"part": "grid", "mode": "JIT", "shards": 1, "args": {"est": est}, "env": {"NUMBA_NUM_THREADS": "16" if est in ("token", "multi") else "1"}, "weight": 6})
     for est in coh.EST:
-        jobs.append({"part": "volume", "mode": "JIT", "shards": 2 if q else 3, "args": {"est": est}, "weight": 8, "timeout": 900 if q else 3400})
+        jobs.append({"part": "volume", "mode": "JIT", "shards": 2 if q else 3, "args": {"est": est}, "weight": 8, "timeout": 2400 if q else 10800})
     return jobs
 
 
@@ -367,6 +367,8 @@ def run_volume(ctx):
         for vocab in (3, 900):
             for mem in ((None, "64k") if mult <= 8 else (None,)):
                 runs.append((mult, vocab, mem))
+    # vocabularies whose cell keys exceed 2^24 (key = col + (n_windows*n + 1)*row): precision of the key arithmetic
+    runs += [(1.1, 6000, "64k"), (3.0, 6000, None)] + ([] if ctx.quick else [(8.0, 20000, "64k"), (40.0, 6000, None)])
     rs = np.random.RandomState(ctx.seed * 1000 + {"token": 1, "timed": 2, "multi": 3, "ngram": 4}[estk])
     for k, (mult, vocab, mem) in enumerate(runs):
         if k % ctx.nshards != ctx.shard:
@@ -382,6 +384,9 @@ def run_volume(ctx):
         toks = rs.randint(0, vocab, size=ntok)
         if vocab > 100:
             toks = np.minimum(toks, rs.randint(0, vocab, size=ntok))  # skewed
+        if vocab > 5000:
+            # events concentrated in the highest rows, neighbouring columns populated (largest keys)
+            toks = vocab - 1 - np.minimum(rs.randint(0, 80, size=ntok), rs.randint(0, 80, size=ntok))
         docs = [[int(x) for x in seg] for seg in np.split(toks, cuts)]
         wins = R.expand(["directional"])
         kw = dict(window_radii=rad, normalize_windows=False)
@@ -402,26 +407,48 @@ def run_volume(ctx):
             td = dict(est.token_label_dictionary_)
             seqs = [[td[t] for t in d] for d in docs]
             n = len(td)
-            ref = R.flat_counts_vectorised(seqs, n, wins, [rad, rad])
+            if vocab > 5000:
+                # full dictionary (most tokens unused) so that row/column indices - and cell keys - are large
+                est = cls(token_dictionary={t: t for t in range(vocab)}, **kw)
+                M = est.fit_transform(conv(docs))
+                td = dict(est.token_label_dictionary_)
+                seqs = [[td[t] for t in d] for d in docs]
+                n = len(td)
+            ref = R.flat_counts_sparse(seqs, n, wins, [rad, rad])
             events = R.count_events(seqs, wins, [rad, rad])
-            case.update(events_per_window=[int(e) for e in events], distinct_cells=int((ref > 0).sum()), coo_sizes=[int(x) for x in est._coo_sizes],
-                        events_over_threshold=round(events[0] / LIM, 2), cells_over_buffer=round(float((ref > 0).sum()) / 2 / max(1, int(est._coo_sizes[0])), 2))
-            D = M.toarray().astype(np.int64) - ref
-            ok1 = M.shape == ref.shape and not D.any()
-            # fit on 1/30 of the corpus, transform the whole (buffers are sized at fit)
-            small = docs[: max(1, len(docs) // 30)]
-            est2 = cls(token_dictionary={t: i for t, i in td.items()}, **kw)
-            est2.fit(conv(small))
-            M2 = est2.transform(conv(docs))
-            M2d = M2.toarray().astype(np.int64)
-            ref2 = ref
-            if estk == "ngram":
-                # rows are the n-grams known at fit time: compare those rows only
+            case.update(events_per_window=[int(e) for e in events], distinct_cells=int(ref.nnz), coo_sizes=[int(x) for x in est._coo_sizes],
+                        events_over_threshold=round(events[0] / LIM, 2), cells_over_buffer=round(float(ref.nnz) / 2 / max(1, int(est._coo_sizes[0])), 2),
+                        largest_cell_key=int((2 * n + 1) * (n - 1) + 2 * n - 1))
+            def rows_of(e, full):
+                if estk != "ngram":
+                    return full
                 inv = {str(t): i for t, i in td.items()}
-                rows = sorted(est2.ngram_label_dictionary_.items(), key=lambda kv: kv[1])
-                ref2 = ref[[inv[lab] for lab, _ in rows]]
-            D2 = M2d - ref2 if M2d.shape == ref2.shape else np.ones((1, 1))
-            ok2 = M2d.shape == ref2.shape and not D2.any()
+                rws = sorted(e.ngram_label_dictionary_.items(), key=lambda kv: kv[1])
+                return full[[inv[lab] for lab, _ in rws]]
+
+            full_ref = ref
+            ref = rows_of(est, full_ref)
+            Dm = (M.astype(np.int64).tocsr() - ref).tocsr() if M.shape == ref.shape else None
+            if Dm is None:
+                raise AssertionError("shape %s vs reference %s" % (M.shape, ref.shape))
+            Dm.eliminate_zeros()
+            D = Dm.data
+            ok1 = M.shape == ref.shape and Dm.nnz == 0
+            # fit on 1/30 of the corpus, transform the whole (buffers are sized at fit; chunking must follow the new corpus)
+            small = docs[: max(1, len(docs) // 30)]
+            nt2 = [1, 3, 2, 5][k % 4]
+            case["transform_n_threads"] = nt2
+            est2 = cls(token_dictionary={t: i for t, i in td.items()}, n_threads=nt2, **kw)
+            est2.fit(conv(small))
+            M2 = est2.transform(conv(docs)).astype(np.int64).tocsr()
+            ref2 = rows_of(est2, full_ref)  # n-gram rows are those known at fit time
+            if M2.shape == ref2.shape:
+                D2m = (M2 - ref2).tocsr()
+                D2m.eliminate_zeros()
+                D2 = D2m.data
+                ok2 = D2m.nnz == 0
+            else:
+                D2, ok2 = np.ones(1), False
         except Exception as e:
             ctx.end(cid)
             ctx.violation("C04/%s/volume/raises/%s" % (NAMES[estk], type(e).__name__), "%s: %s" % (type(e).__name__, str(e)[:160]), case, None, sig=cid)
@@ -431,14 +458,14 @@ def run_volume(ctx):
         case["fit_s"] = round(time.time() - t0, 1)
         if k < 3:
             ctx.sample(case)
-        regime = "few-cells" if vocab <= 5 else "many-cells"
+        regime = "few-cells" if vocab <= 5 else ("many-cells" if vocab <= 5000 else "keys-beyond-2^24")
         if not ok1:
             ctx.violation("C04/%s/volume/fit_transform/%s/%s" % (NAMES[estk], "events-lost" if D.sum() < 0 else "events-duplicated-or-misplaced", regime),
-                          "%.1fx threshold, %d distinct cells, memory %s: %d cells differ, net %d events" % (mult, case["distinct_cells"], case["memory"], int((D != 0).sum()), int(D.sum())), case, None, sig=cid)
+                          "%.1fx threshold, %d distinct cells, vocabulary %d, memory %s: %d cells differ, net %d events" % (mult, case["distinct_cells"], vocab, case["memory"], int(len(D)), int(D.sum())), case, None, sig=cid)
             continue
         if not ok2:
             ctx.violation("C04/%s/volume/transform-of-larger-corpus/%s/%s" % (NAMES[estk], "events-lost" if D2.sum() < 0 else "events-duplicated-or-misplaced", regime),
-                          "fit on 1/30, transform whole (%.1fx threshold): %d cells differ, net %d events" % (mult, int((D2 != 0).sum()), int(D2.sum())), case, None, sig=cid)
+                          "fit on 1/30, transform whole with n_threads=%d (%.1fx threshold): %d cells differ, net %d events" % (nt2, mult, int(len(D2)), int(D2.sum())), case, None, sig=cid)
             continue
         ctx.ok(cid, mult > 1)
 
